@@ -244,6 +244,8 @@ def run(F, R, tier):
                         F.loc(f, n), "append of a non-fresh object or outside the block-missing branch: duplicates an "
                         "existing (block, key) entry instead of replacing it", key="D2k|%s|%s" % (inst, nm))
 
+    R.guard(_thdm_config_plumbing, F, R)
+
     # ---------------- D6 echo of the input -----------------------------------------------------------
     R.rule("D6", "SLHA output echoes the input: the SLHAea container is written only by the readers (clear + read) and by "
                  "fill_block_entry; every reader/filler of a model is a const member; the program hands fill_block_entry only "
@@ -652,3 +654,54 @@ def _long_division(a, b):
         q = q + t
         r = r - t * b
     return None
+
+
+def _thdm_config_plumbing(F, R):
+    """D7: the THDM the program prints results for is configured with the options' own flags: every field of thdm::Config
+    receives the same-named field of the program options (by named assignment, or by position in a braced initialiser,
+    matched against the declaration order of the struct)"""
+    from .render import Renderer
+    rec = F.records.get("gm2calc::thdm::Config")
+    fs = [f for f in F.functions.values() if re.search(r"THDM_reader::operator\(\)$", f["name"])]
+    R.rule("D7", "THDM_reader configures the model with the selected flags: each field of thdm::Config is set from the same-named "
+                 "program option (named assignment, or braced initialiser matched by the struct's declaration order)", 2)
+    if rec is None or not fs:
+        R.broken("D7: thdm::Config or THDM_reader::operator() not found")
+        return
+    f = fs[0]
+    Rr = Renderer(f, resolve_locals=False)
+    names = [fl["name"] for fl in rec["fields"]]
+    got = {}
+    var_ids = set()
+    for n in walk(f["body"]):
+        if n.get("k") == "DeclStmt":
+            for d in n.get("decls", ()):
+                if "thdm::Config" in str(d.get("t") or ""):
+                    var_ids.add(d.get("id"))
+                    ini = strip_all(d.get("init")) if d.get("init") is not None else None
+                    while ini is not None and ini.get("k") in ("CXXConstructExpr", "CXXFunctionalCastExpr") and len(ini.get("c", [])) == 1:
+                        ini = strip_all(ini["c"][0])
+                    if ini is not None and ini.get("k") == "InitListExpr":
+                        for nm, c in zip(names, ini.get("c", [])):
+                            got[nm] = (Rr.r(c), n)
+    for n in walk(f["body"]):
+        if n.get("k") == "BinaryOperator" and n.get("op") == "=":
+            l = strip_all(n["c"][0])
+            if l is not None and l.get("k") == "MemberExpr" and l.get("mk") == "Field" and l.get("c"):
+                b = strip_all(l["c"][0])
+                if b is not None and b.get("k") == "DeclRefExpr" and b.get("id") in var_ids:
+                    got[l["sn"]] = (Rr.r(n["c"][1]), n)
+    # a temporary handed to the constructor directly: THDM(basis, sm, thdm::Config{a, b})
+    for n in walk(f["body"]):
+        if n.get("k") in ("CXXTemporaryObjectExpr", "CXXFunctionalCastExpr", "InitListExpr") and "thdm::Config" in str(n.get("t") or ""):
+            ini = n if n.get("k") == "InitListExpr" else (strip_all(n["c"][0]) if n.get("c") else None)
+            if ini is not None and ini.get("k") == "InitListExpr":
+                for nm, c in zip(names, ini.get("c", [])):
+                    got.setdefault(nm, (Rr.r(c), n))
+    for nm in names:
+        val = got.get(nm)
+        R.check("D7", val is not None and val[0] == "options." + nm, "thdm::Config.%s <- %s" % (nm, val[0] if val else "(default)"),
+                F.loc(f, val[1]) if val else F.loc(f),
+                "the model's %s flag is %s, not the option of that name: the program prints the result of another configuration "
+                "than the one selected (GM2CalcConfig)" % (nm, ("set from " + val[0]) if val else "left at its default"),
+                key="D7|" + nm)
